@@ -27,6 +27,7 @@ emulates exactly that contract.
 from __future__ import annotations
 
 import asyncio
+import logging
 import struct
 
 from common import Coverage, Driver, hx, rng, unhx, violation
@@ -46,6 +47,7 @@ class Link:
         self.conn_lost = 0
         self.eof_written = False
         self.fatal = None         # class name of the exception that left data_received
+        self.lost_args = []       # what connection_lost was called with (exception class name / None)
 
     # transport API used by the protocol
     def is_closing(self):
@@ -82,6 +84,7 @@ class Link:
     # reading side
     def _lost(self, exc):
         self.conn_lost += 1
+        self.lost_args.append(type(exc).__name__ if exc is not None else None)
         try:
             self.proto.connection_lost(exc)
         except Exception:  # noqa  - connection_lost errors are logged by the loop, not re-raised
@@ -108,18 +111,49 @@ class Link:
 
     @property
     def ended(self):
-        return bool(self.conn_lost or self.closing)
+        """the session is over: transport closing/closed AND connection_lost delivered to the protocol"""
+        return bool(self.closing and self.conn_lost)
+
+    @property
+    def end_mode(self):
+        if not self.ended:
+            return "open"
+        return ("fatal:" + self.fatal) if self.fatal else "closed-by-protocol"
 
 
 class FakeConnection:
+    """Stands in for HomeKitConnection.  It offers the attributes the real class has, so that code in the
+    protocol that merely *uses* the connection (e.g. logs `self.connection.name`) behaves as in production;
+    any attribute it does not know is recorded in UNKNOWN and reported by run() - otherwise the resulting
+    AttributeError would leave data_received and be mistaken for the fatal-error teardown."""
+
+    UNKNOWN = set()
+    name = "c05-accessory"
+    owner = None
+    hosts = ["127.0.0.1"]
+    port = 51826
+    is_secure = True
+    is_connected = True
+    closing = False
+    closed = False
+    connected_host = "127.0.0.1"
+    host_header = "Host: 127.0.0.1"
+
     def __init__(self):
         self.lost = []
         self.events = []
+        self.transport = None
+        self.protocol = None
 
-    def _connection_lost(self, exc):
+    def __getattr__(self, item):
+        if not (item.startswith("__") and item.endswith("__")):
+            FakeConnection.UNKNOWN.add(item)
+        raise AttributeError(item)
+
+    def _connection_lost(self, exc=None, *args, **kwargs):
         self.lost.append(type(exc).__name__ if exc is not None else None)
 
-    def event_received(self, resp):
+    def event_received(self, resp, *args, **kwargs):
         self.events.append(resp)
 
 
@@ -143,6 +177,7 @@ def make_proto(a2c_key, c2a_key, a2c_ctr=0, c2a_ctr=0, record=False):
     proto = SecureHomeKitProtocol(conn, a2c_key, c2a_key)
     link = Link()
     link.proto = proto
+    conn.transport, conn.protocol = link, proto
     proto.connection_made(link)
     proto.a2c_counter = a2c_ctr
     proto.c2a_counter = c2a_ctr
@@ -477,7 +512,7 @@ async def impl_recv(c):
         link.deliver(seg)
         got = b"".join(rec.parts[n0:])
         toks.append(("D" if link.ended else "L") + "/" + hx(got))
-    return toks, link.fatal
+    return toks, dict(end=link.end_mode, connection_lost=list(link.lost_args), forwarded=list(conn.lost))
 
 
 def model_recv_canon(ans):
@@ -490,8 +525,12 @@ def model_recv_canon(ans):
     return toks, t[-1]
 
 
-def oracle_recv(c, toks):
-    """reference receiver on the unsegmented stream vs what the implementation delivered in total"""
+def oracle_recv(c, toks, info):
+    """reference receiver on the unsegmented stream vs what the implementation delivered in total, and the
+    explicit observable "session ended": after a frame that fails to open the transport must be
+    closing/closed and connection_lost delivered to the protocol by the end of the very read that completes
+    that frame (reference receiver under the same reads tells which); without a failure the session must
+    stay alive."""
     rx = ref.RefReceiver(c["key"], c["ctr"])
     rx.feed(c["stream"])
     want = b"".join(rx.delivered)
@@ -506,10 +545,29 @@ def oracle_recv(c, toks):
         if len(got) > len(want) or got != want[:len(got)]:
             return ("unauthentic-data-delivered", f"{c['mut']}: delivered bytes that the reference receiver rejects")
         return ("authentic-data-lost", f"{c['mut']}: delivered {len(got)} of the {len(want)} authentic bytes preceding the bad frame")
-    if rx.dead and not ended:
-        return ("auth-failure-session-not-ended", f"{c['mut']}: a frame failed authentication ({rx.why}) but the transport is still open")
-    if not rx.dead and ended:
-        return ("session-ended-without-cause", f"{c['mut']}: transport closed although every complete frame was authentic")
+    if rx.dead:
+        rs = ref.RefReceiver(c["key"], c["ctr"])
+        dead_at = None
+        for i, seg in enumerate(c["segs"]):
+            rs.feed(seg)
+            if rs.dead:
+                dead_at = i
+                break
+        if not ended or info["end"] == "open":
+            return ("auth-failure-session-not-ended",
+                    f"{c['mut']}: frame {len(rx.delivered)} failed authentication ({rx.why}) but the session goes on: transport "
+                    f"not closing, connection_lost not delivered (end state: {info['end']})")
+        if dead_at is not None and not toks[dead_at].startswith("D"):
+            return ("auth-failure-session-not-ended",
+                    f"{c['mut']}: frame {len(rx.delivered)} failed authentication in read {dead_at} but the session was still open "
+                    f"after that read")
+        if not info["connection_lost"]:
+            return ("auth-failure-session-not-ended", f"{c['mut']}: transport closing but connection_lost never delivered")
+    else:
+        if ended or info["end"] != "open" or info["connection_lost"] or info["forwarded"]:
+            return ("session-ended-without-cause",
+                    f"{c['mut']}: every complete frame was authentic, yet the session ended ({info['end']}, "
+                    f"connection_lost={info['connection_lost']})")
     return None
 
 
@@ -572,6 +630,7 @@ def run(ctx):
 
     send_cases = gen_send(tier, rng(seed, "c05send"))
     recv_cases = gen_recv(tier, rng(seed, "c05recv"))
+    FakeConnection.UNKNOWN.clear()
     event_cases = gen_event(tier, rng(seed, "c05event"))
 
     send_model = drv.batch(["sends %d %s" % (c["ctr"], " ".join(hx(p) for p in c["payloads"])) for c in send_cases])
@@ -585,9 +644,12 @@ def run(ctx):
 
     loop = asyncio.new_event_loop()
     loop.set_exception_handler(lambda l, c: None)
+    prev_disable = logging.root.manager.disable
+    logging.disable(logging.CRITICAL)      # the code under test may log per corrupted frame
     try:
         send_impl, recv_impl, event_impl = loop.run_until_complete(all_impl())
     finally:
+        logging.disable(prev_disable)
         loop.close()
 
     # ---- send
@@ -639,12 +701,13 @@ def run(ctx):
             ctr = m[2]
 
     # ---- recv
-    for ci, (c, m_ans, (toks, fatal)) in enumerate(zip(recv_cases, recv_model, recv_impl)):
+    for ci, (c, m_ans, (toks, info)) in enumerate(zip(recv_cases, recv_model, recv_impl)):
         m_toks, m_fin = model_recv_canon(m_ans)
-        orc = oracle_recv(c, toks)
+        orc = oracle_recv(c, toks, info)
         rep = dict(stream="recv", a2c_key=hx(c["key"]), start_counter=c["ctr"], frame_sizes=[len(p) for p in c["frames"]],
                    corruption=c["mut"], reads=[hx(s) for s in c["segs"]] if len(c["stream"]) <= 400 else [len(s) for s in c["segs"]],
-                   impl=[t[:80] for t in toks][:20], model=[t[:80] for t in m_toks][:20], impl_exception=fatal)
+                   impl=[t[:80] for t in toks][:20], model=[t[:80] for t in m_toks][:20], model_final=m_fin[:40],
+                   impl_session=info)
         if orc is not None:
             report("recv:" + orc[0], "recv: " + orc[1], True, **rep)
         elif toks != m_toks:
@@ -656,7 +719,7 @@ def run(ctx):
                  sample=dict(stream="recv", frame_sizes=[len(p) for p in c["frames"]], corruption=c["mut"],
                              read_sizes=[len(s) for s in c["segs"]][:10], result=[t[:24] for t in toks][:6]) if ci % 3001 == 0 else None,
                  recv_style=c["style"], recv_corruption=c["mut"], recv_reads=min(len(c["segs"]), 50),
-                 recv_end=("dead" if toks and toks[-1][0] == "D" else "live"))
+                 recv_end=("dead" if toks and toks[-1][0] == "D" else "live"), recv_session_end=info["end"])
 
     # ---- event
     for ci, (c, (got, want, ended, rdead, nframes)) in enumerate(zip(event_cases, event_impl)):
@@ -670,6 +733,11 @@ def run(ctx):
                  sample=dict(stream="event", body_lens=rep["body_lens"], frames=nframes, corrupted=c["flip"]) if ci % 97 == 0 else None,
                  event_msgs=len(c["bodies"]), event_corrupted=c["flip"])
 
+    if FakeConnection.UNKNOWN:
+        report("harness:fake-connection-incomplete",
+               f"the protocol accessed connection attribute(s) {sorted(FakeConnection.UNKNOWN)} that harness/c05.py::FakeConnection "
+               f"does not provide; the resulting AttributeError may have been mistaken for a session teardown", False,
+               attributes=sorted(FakeConnection.UNKNOWN))
     for v in viols:
         v["payload"]["occurrences"] = seen[v["key"]]
     cov.extra["exhaustive"] = True
